@@ -56,14 +56,14 @@ class Session(object):
         if len(self.viol) < 12:
             self.viol.append((clause, why, dict(inputs, buffer_size=self.buffer_size, window_size=self.window)))
 
-    def op(self, inputs, fn, want=None, writes=(), decode=None):
+    def op(self, inputs, fn, want=None, writes=(), decode=None, may_reject=()):
         """Run one API call.  `want`: expected return value (None: nothing to compare);
         `writes`: [(x, y, p, address, bytes)] the call must leave in memory (applied to the model)."""
         if self.dead:
             return None
         self.ops += 1
         self.net.steps = 0
-        old_model = self.model.copy() if (self.allow_timeout and writes) else None
+        old_model = self.model.copy() if ((self.allow_timeout and writes) or may_reject) else None
         for (x, y, p, addr, data) in writes:
             self.model.poke(x, y, p, addr, data)
         S = self.ctx["S"]
@@ -86,6 +86,12 @@ class Session(object):
             self.dead = True
             return None
         except Exception as e:
+            if may_reject and isinstance(e, may_reject) and self.machine.n_commands == before:
+                # a value the call may refuse (wider than its field): refusing it before anything is sent is fine
+                self.model.pages = old_model.pages
+                if not self.machine.memory.same(self.model):
+                    self.bad("memory_after_write", "the call refused its value (%s) but memory changed" % type(e).__name__, inputs)
+                return None
             self.collect(inputs)
             self.bad("call_raises", "%s: %s" % (type(e).__name__, e), inputs)
             self.dead = True
@@ -287,16 +293,23 @@ def sweep(ses, tier, rng, stride=1, parts=("rw", "fill", "link", "struct", "vcpu
             for rep in range(2):
                 x, y, p = place()
                 addr = VCPU_BASE[(x, y)] + vsize * p + off
+                reject = ()
                 if pack.startswith("A"):
                     enc, _, size = field_codec(pack, length)
                     value = "app%d_%d_%d" % (x, y, n[0] % 100)
-                    stored = enc(value)
+                    if rep == 1:
+                        # names that fill the field exactly, are one byte or much too long for it, or only become too long
+                        # when encoded: whatever the call does with them, it must not write outside the field
+                        # (truncating to the field, or refusing the value before anything is sent, are both accepted)
+                        value = ("x" * size, "y" * (size + 1), "seventeen_chars__" + "z" * 30, u"na\u00efve_caf\u00e9_\u00fcber" + "!" * (size - 15), "")[n[0] % 5]
+                        reject = (ValueError, struct.error, TypeError)
+                    stored = enc(value)[:size]
                 else:
                     enc, dec, size = field_codec(pack, 1)
                     value = rng.getrandbits(8 * size)
                     stored = enc(value)
                 ses.op({"call": "write_vcpu_struct_field", "field": name, "value": value, "chip": [x, y], "core": p},
-                       lambda: mc.write_vcpu_struct_field(name, value, x, y, p), writes=[(x, y, 0, addr, stored)])
+                       lambda: mc.write_vcpu_struct_field(name, value, x, y, p), writes=[(x, y, 0, addr, stored)], may_reject=reject)
                 x, y, p = place()
                 addr = VCPU_BASE[(x, y)] + vsize * p + off
                 raw = model.peek(x, y, 0, addr, size)
@@ -435,7 +448,7 @@ def run(tier="quick", seed=0):
 
     return {"name": "c07_memory", "evaluations": ev, "distinct_nontrivial": distinct_n,
             "rule": "a case = one MachineController call (read, write, fill, read/write_across_link, read/write_struct_field over every sv field, "
-                    "read/write_vcpu_struct_field over every vcpu field) in a session = (advertised buffer size, window size, network mode); the call runs "
+                    "read/write_vcpu_struct_field over every vcpu field, string fields also with names that fill the field exactly, exceed it by one or by many bytes, or only exceed it once encoded: truncated to the field or refused before anything is sent, never written past it) in a session = (advertised buffer size, window size, network mode); the call runs "
                     "through the real SCPConnection over a simulated socket into a simulated machine (5 chips of a 3x3 torus with different vcpu_base, "
                     "cores 0,1,2,17, core-local and chip-wide address ranges); addresses base+0..9 x lengths 0..3*buffer+3 (buffers 255/256 in quick: lengths "
                     "within 3 of a multiple of the buffer); network modes: plain, reorder (replies overtake inside groups of four), faulty (seeded: each "
